@@ -60,6 +60,8 @@ func init() {
 			"untrusted": other.Leaf("ecdsa", []string{"example.com"}, now.Add(-time.Hour), now.Add(24*time.Hour)),
 			"expired":   pk.Leaf("ecdsa", []string{"example.com"}, now.Add(-48*time.Hour), now.Add(-24*time.Hour)),
 			"notyet":    pk.Leaf("ecdsa", []string{"example.com"}, now.Add(24*time.Hour), now.Add(48*time.Hour)),
+			"expired-wrongname": pk.Leaf("ecdsa", []string{"another.example"}, now.Add(-48*time.Hour), now.Add(-24*time.Hour)),
+			"notyet-wrongname":  pk.Leaf("ecdsa", []string{"another.example"}, now.Add(24*time.Hour), now.Add(48*time.Hour)),
 		}
 		res := make([][]map[string]any, len(req.Scenarios))
 		hlib.Parallel(len(req.Scenarios), func(i int) {
